@@ -369,9 +369,6 @@ func DecodeInner(encoded []byte, outer *Hello) (*Hello, error) {
 			return nil, fmt.Errorf("%w: non-zero padding", ErrSyntax)
 		}
 	}
-	if len(in.SessionID) != 0 {
-		return nil, fmt.Errorf("%w: encoded inner has a session id", ErrSyntax)
-	}
 	in.SessionID = append([]byte(nil), outer.SessionID...)
 	var out []Ext
 	seen := false
@@ -407,6 +404,26 @@ func DecodeInner(encoded []byte, outer *Hello) (*Hello, error) {
 	}
 	in.Exts = out
 	return in, nil
+}
+
+// EncodeInnerSID is EncodeInner for a non-conforming encoder that leaves sid as
+// the encoded inner's legacy_session_id (a conforming one leaves it empty; the
+// decoder substitutes the outer hello's value either way).
+func EncodeInnerSID(inner *Hello, from, to, pad int, sid []byte) []byte {
+	c := inner.Clone()
+	c.SessionID = sid
+	if to > from {
+		var types []uint16
+		for _, e := range inner.Exts[from:to] {
+			types = append(types, e.Type)
+		}
+		var exts []Ext
+		exts = append(exts, c.Exts[:from]...)
+		exts = append(exts, OuterExtsExt(types))
+		exts = append(exts, c.Exts[to:]...)
+		c.Exts = exts
+	}
+	return append(c.Body(), make([]byte, pad)...)
 }
 
 // EncodeInner builds EncodedClientHelloInner from the true inner hello:
